@@ -46,7 +46,8 @@ def families(seed, n):
             b = branch()
             whole, parts = pre + "<" + b + r.choice([":1", ":1,1"]) + ">" + post, [pre + b + post]
         else:
-            parts = [g.expr() for _ in range(r.randint(1, 3))]
+            # members given as OWNED compiled globs carry their flags in the token tree only: generate flags there
+            parts = [(gp if law == "any-owned" else g).expr() for _ in range(r.randint(1, 3))]
             whole = None
         key = (law, whole, tuple(parts))
         if key in seen or any(p == "" for p in parts):
